@@ -781,8 +781,14 @@ func engineCut(rng *rand.Rand, n int, tier string, o *Out) {
 		}
 	}
 
-	// ---- scenario sub-engines (oracle only)
+	// ---- scenario sub-engines (structured inputs, Model/CallScen.v)
 	engineCutScenarios(rng, n, tier, o)
+
+	// ---- connect / handshake budgets against Model/Budget.v
+	engineCutBudget(rng, n, tier, o)
+
+	// ---- hostile fragment lists under arbitrary scripts against the reader model (fragr)
+	engineCutHostile(rng, n, tier, o)
 }
 
 // runCutJob: one faulted run + model input/observable + oracle (timing re-checked 3 times)
